@@ -52,6 +52,25 @@ theorem popPending_append (P : List Pend) (l1 l2 : List String)
   unfold popPending at h1 ⊢
   rw [List.foldl_append, h1]
 
+/-- leaves that name nothing of what is left do not pop anything more -/
+theorem popPending_append_none (P : List Pend) (l1 l2 : List String)
+    (h : ∀ n ∈ l2, ∀ p ∈ (popPending P l1).2, p.tmp ≠ n) : popPending P (l1 ++ l2) = popPending P l1 := by
+  unfold popPending at h ⊢
+  rw [List.foldl_append]
+  generalize List.foldl (fun (acc : List Pend × List Pend) n =>
+    match acc.2.find? (fun p => p.tmp == n) with
+    | some p => (acc.1 ++ [p], acc.2.filter (fun q => q.tmp != n))
+    | none => acc) ([], P) l1 = acc at h ⊢
+  induction l2 with
+  | nil => rfl
+  | cons l ls ih =>
+    simp only [List.foldl_cons]
+    have : acc.2.find? (fun p => p.tmp == l) = none := by
+      simp only [List.find?_eq_none, beq_iff_eq]
+      intro p hp; exact h l (List.mem_cons_self) p hp
+    rw [this]
+    exact ih (fun n hn => h n (List.mem_cons_of_mem _ hn))
+
 /-- popping the last entry by its (fresh) name -/
 theorem popPending_last (P : List Pend) (p : Pend) (h : ∀ q ∈ P, q.tmp ≠ p.tmp) :
     popPending (P ++ [p]) [p.tmp] = ([p], P) := by
@@ -72,7 +91,7 @@ theorem popPending_last (P : List Pend) (p : Pend) (h : ∀ q ∈ P, q.tmp ≠ p
 
 /-- `chk` is the identity when no leaf names a pending entry -/
 theorem chk_noleaf (st : HSt) (e : ILEffect) (bare : List String) (after : Bool)
-    (h : ∀ n ∈ tmpsOfEffect e ++ bare, ∀ p ∈ st.pending, p.tmp ≠ n) : chk st e bare after = (e, st) := by
+    (h : ∀ n ∈ bare ++ tmpsOfEffect e, ∀ p ∈ st.pending, p.tmp ≠ n) : chk st e bare after = (e, st) := by
   unfold chk
   rw [popPending_none _ _ h]
   rfl
